@@ -75,6 +75,15 @@ Theorem reassembly_any_interleaving : forall l3 mtu o msgs frames,
 Proof. exact reassembly_any_interleaving_lemma. Qed.
 Print Assumptions reassembly_any_interleaving.
 
+(* The receiver's bound on FragCount (maxFragCount, translated from the tree) is at least the number of fragments the sender
+   produces, for every admissible MTU, option setting, token, mark, incoming-face id and packet: no legitimate frame is
+   rejected for its FragCount. *)
+Theorem sender_count_le_receiver_bound : forall mtu o sq tok inface mark wire,
+  (128 <= mtu)%Z -> (length tok <= 32)%nat -> (1 <= zlen wire <= Z.of_N c_MaxNDNPacketSize)%Z -> sq < two64 ->
+  N.of_nat (length (fst (send_fields mtu o sq tok inface mark wire))) <= c_maxFragCount.
+Proof. exact sender_count_le_receiver_bound_lemma. Qed.
+Print Assumptions sender_count_le_receiver_bound.
+
 (* link_run_bytes is the reassembly step of handleIncomingFrame (the rest is the inner parse and thread dispatch) *)
 Theorem link_step_is_handle_frame : forall c inner st i d f frame, r_reasm c = true ->
   handle_frame true c inner st (DPkt i d (Some f)) frame =
